@@ -152,6 +152,10 @@ def play(ctx, hist, cm, gl, cla, arguments, model_state):
             elif fl["mrf"]:
                 choices += ["repop", "repop", "repop"]
         op = r.choice(choices)
+        if op == "repop" and not partition_ok(st):
+            # repopulation asserts that the member lists match the labels; a state broken by the
+            # documented shallow-copy hazard is outside the phase's precondition
+            op = "shallow"
         kinds.add(op)
         before = [tu.snapshot_state(x) for x in states]
         input_ok = partition_ok(st)
